@@ -550,7 +550,7 @@ def scripted_mixed_traffic() -> str:
                 check(tr["data"].startswith(got), "seed %d stream %d: delivered a prefix" % (seed, sid))
             if d is not None:
                 check(d.data_after_end == 0, "no data after FIN")
-        for ep in p.endpoints:
+        for ep in p.endpoints:  # (no Retry / VN in these runs: see observations)
             led = peek_ledger(ep.conn)
             check(led["bytes_in_flight"] == led["recomputed"],
                   "ledger consistent at rest (seed %d %s): %r" % (seed, ep.name, led))
@@ -595,6 +595,48 @@ def fates_and_public_state() -> str:
             "client.send_stream_data(0, b'a'*5000); client.send_stream_data(4, b'', True); "
             "stream 4 never appears on the wire (get_frame pops the FIN, then "
             "builder.start_frame raises QuicPacketBuilderStop)")
+    # a key update nobody saw a packet of: the server updates, its first new-phase
+    # packet is an ACK (the client answers nothing), then the client updates too,
+    # so the client jumps two key generations between two of its packets
+    k = Pair(53)
+    k.handshake()
+    k.run_until_idle()
+    k.client.send_ping(1)
+    k.pump(k.client)
+    k.run(lambda q: len(q.server.received) > 3 and q.server.timer_at is not None, max_time=1)
+    k.server.request_key_update()
+    k.run_until_idle()
+    k.client.request_key_update()
+    k.client.send_stream_data(0, b"after two generations", True)
+    k.pump(k.client)
+    k.run_until_idle()
+    st = k.observer.stats()
+    check(st["decrypted"] == st["protected"], "observer follows multi-generation key updates: %r" % (st["by_type"],))
+    check(_delivered(k, "server", 0) == b"after two generations", "data after double update")
+    # a duplicated PATH_RESPONSE (plain network duplication) kills the connection
+    d = Pair(54)
+    d.handshake()
+    d.run_until_idle()
+    d.network.set_fate(lambda i, direction, data:
+                       [deliver(), duplicate(0.02)] if direction == "c2s" else [deliver()])
+    d.rebind("client")
+    d.client.send_ping(1)
+    d.pump(d.client)
+    d.run_until_idle()
+    if d.server.terminated is not None:
+        OBSERVATIONS.append(
+            "network duplication of the datagram carrying PATH_RESPONSE closes the connection: "
+            "Pair(54); handshake; set_fate(duplicate every c2s datagram); rebind('client'); "
+            "client.send_ping(1) -> %r" % (d.server.terminated,))
+    g = Pair(55, retry=True)
+    g.handshake()
+    g.run_until_idle()
+    led = peek_ledger(g.client.conn)
+    if led["bytes_in_flight"] != led["recomputed"]:
+        OBSERVATIONS.append(
+            "after Retry the client's bytes_in_flight stays at %d with no packet tracked "
+            "(Pair(55, retry=True); handshake; run_until_idle; peek_ledger(client))"
+            % led["bytes_in_flight"])
     # anti-amplification busy loop after rebind
     r = Pair(52)
     r.handshake()
